@@ -3,8 +3,11 @@ package checks
 import (
 	"crypto/sha1"
 	"encoding/json"
+	"fmt"
 	"sort"
 
+	"berty.tech/go-orbit-db/iface"
+	"berty.tech/go-orbit-db/stores/operation"
 	cid "github.com/ipfs/go-cid"
 	ds "github.com/ipfs/go-datastore"
 )
@@ -35,3 +38,56 @@ func mustCid(s string) cid.Cid {
 }
 
 func sortStrings(s []string) { sort.Strings(s) }
+
+// replayOfLog folds the operations of the log the store holds, in the order Values() lists them, the last
+// one on a key winning, and renders the result the way viewOf renders the store's own view.
+func replayOfLog(s iface.Store, typ string) ([]string, error) {
+	vals := s.OpLog().Values().Slice()
+	if typ == "eventlog" {
+		out := make([]string, 0, len(vals))
+		for _, e := range vals {
+			op, err := operation.ParseOperation(e)
+			if err != nil {
+				return nil, err
+			}
+			out = append(out, fmt.Sprintf("%s:%x", short(e.GetHash().String()), sha(op.GetValue())))
+		}
+		return out, nil
+	}
+	state := map[string][]byte{}
+	for _, e := range vals {
+		op, err := operation.ParseOperation(e)
+		if err != nil {
+			return nil, err
+		}
+		switch op.GetOperation() {
+		case "PUT":
+			if op.GetKey() != nil {
+				state[*op.GetKey()] = op.GetValue()
+			}
+		case "DEL":
+			if op.GetKey() != nil {
+				delete(state, *op.GetKey())
+			}
+		case "PUTALL":
+			for _, d := range op.GetDocs() {
+				state[d.GetKey()] = d.GetValue()
+			}
+		}
+	}
+	var out []string
+	for k, v := range state {
+		if typ == "keyvalue" {
+			out = append(out, fmt.Sprintf("%s=%x", k, sha(v)))
+			continue
+		}
+		var d map[string]interface{}
+		if err := json.Unmarshal(v, &d); err != nil {
+			return nil, err
+		}
+		b, _ := json.Marshal(d)
+		out = append(out, fmt.Sprintf("%x", sha(b)))
+	}
+	sort.Strings(out)
+	return out, nil
+}
